@@ -9,7 +9,7 @@ from ..cfg import handler_names
 from ..effprops import engine
 from ..index import AnalysisError, dotted, function_stmts, parent, walk_no_nested
 from ..roles import reason_codes_in
-from ..util import callee_last, calls_in, kw, names_in, txt
+from ..util import Expander, callee_last, calls_in, kw, names_in, txt
 
 EXPLANATION = (
     "Static analysis of the coercion error path (ast, handler structure, annotation-typed operator lint, E5 effects; "
@@ -25,7 +25,7 @@ EXPLANATION = (
     "none). NOT decided: everything value-level - exactness, idempotence, agreement of coerce/coerce_value/check."
 )
 LEVEL_RULE = "one obligation per try_coerce implementation / helper / schema-level site / coerce method / operator"
-FLOORS = {"R1": 4, "R2": 4, "R3": 4, "R4": 20, "R5": 1}
+FLOORS = {"R1": 4, "R2": 4, "R3": 4, "R4": 20, "R5": 1, "R6": 2}
 
 HELPERS = {"numpy_pandas_coerce_failure_cases", "polars_coerce_failure_cases", "polars_failure_cases_from_coercible"}
 ENGINE_MODS = ["pandera/engines/numpy_engine.py", "pandera/engines/pandas_engine.py", "pandera/engines/polars_engine.py",
@@ -129,8 +129,15 @@ def r2_helpers(ctx):
             ret_false = any(isinstance(s, ast.Return) and isinstance(s.value, ast.Constant) and s.value.value is False for h in t.handlers for s in ast.walk(h))
             ok = calls_cv and ret_true and ret_false
             detail = f"coerce_value called: {calls_cv}; True on success: {ret_true}; False on exception: {ret_false}"
-    mapped = any(callee_last(c) == "map" and c.args and isinstance(c.args[0], ast.Name) and c.args[0].id in f.nested for c in calls_in(f.node))
-    ctx.ob("R2", f, "numpy_pandas_coercible(x) == `coerce_value(x)` does not raise, element-wise", ok and mapped, detail + f"; mapped over the series: {mapped}")
+    # the value returned is exactly <series>.map(<that predicate>): nothing is OR-ed / AND-ed onto the flags
+    ex = Expander(f.node)
+    rets = [ex.expand(s.value) for s in function_stmts(f) if isinstance(s, ast.Return) and s.value is not None]
+    mapped = bool(rets) and all(isinstance(r, ast.Call) and callee_last(r) in ("map", "apply") and txt(r.func.value) == f.positional[0]
+                                and len(r.args) == 1 and isinstance(r.args[0], ast.Name) and r.args[0].id in f.nested for r in rets)
+    ctx.ob("R2", f, "numpy_pandas_coercible(x) == `coerce_value(x)` does not raise, element-wise", ok and mapped,
+           detail + (f"; returned as {f.positional[0]}.map(predicate)" if mapped else
+                     f"; the returned flags are `{txt(rets[0])[:80] if rets else None}`, not the plain element-wise map: elements whose "
+                     "coerce_value fails can be reported coercible (or vice versa), so the failure cases no longer equal the uncoercible elements"))
     g = u.functions.get("numpy_pandas_coerce_failure_cases")
     ctx.touched(g)
     uses = [c for c in calls_in(g.node) if callee_last(c) == "postprocess"]
@@ -243,10 +250,64 @@ def r5_operator_lint(ctx):
         ctx.ob("R5", m.path, "no boolean operator over frames in polars_engine", True, "nothing to check")
 
 
+def _null_masks(e, data):
+    """(masks of the coerced object, masks of the input) among the .isna()/.notna() calls in `e`."""
+    co, inp = [], []
+    for c in ast.walk(e):
+        if isinstance(c, ast.Call) and isinstance(c.func, ast.Attribute) and c.func.attr in ("isna", "isnull", "notna", "notnull") and not c.args:
+            (inp if data in names_in(c.func.value) and not any(isinstance(x, ast.Call) and callee_last(x) in ("astype", "coerce", "_coerce", "map", "apply")
+                                                             for x in ast.walk(c.func.value)) else co).append(c)
+    return co, inp
+
+
+def r6_new_nulls(ctx):
+    """A coercion that turns unconvertible values into nulls must detect them element-wise: null after AND not null before."""
+    ix = ctx.ix
+    n = 0
+    for mp in ENGINE_MODS:
+        m = ix.by_path.get(mp)
+        if m is None:
+            continue
+        for f in m.all_functions:
+            if f.name not in ("coerce", "try_coerce", "_coerce") or f.cls is None or len(f.positional) < 2:
+                continue
+            data = f.positional[1]
+            ex = Expander(f.node)
+            seen = set()
+            for s in function_stmts(f):
+                cands = []
+                if isinstance(s, ast.If):
+                    cands.append(s.test)
+                elif isinstance(s, ast.Assign):
+                    cands.append(s.value)
+                for c0 in cands:
+                    e = ex.expand(c0)
+                    co, inp = _null_masks(e, data)
+                    if not co or not inp:
+                        continue
+                    key = txt(e)
+                    if key in seen:
+                        continue
+                    seen.add(key)
+                    n += 1
+                    joint = [b for b in ast.walk(e) if isinstance(b, ast.BinOp) and isinstance(b.op, ast.BitAnd)
+                             and any(x in list(ast.walk(b)) for x in co) and any(x in list(ast.walk(b)) for x in inp)]
+                    aggs = [a for a in ast.walk(e) if isinstance(a, ast.Call) and callee_last(a) in ("any", "all") and isinstance(a.func, ast.Attribute)]
+                    split = [a for a in aggs if not any(j in list(ast.walk(a)) for j in joint)
+                             and (any(x in list(ast.walk(a)) for x in co) or any(x in list(ast.walk(a)) for x in inp))]
+                    ok = bool(joint) and not split
+                    ctx.ob("R6", f, f"{f.cls.name}.{f.name}: values nulled by the conversion are detected element-wise", ok,
+                           "null-after & not-null-before combined per element before any aggregation" if ok else
+                           f"`{txt(c0)[:90]}` aggregates the null masks of the result and of the input separately: a container that already "
+                           "holds a null hides every value the conversion silently turned into null", f.loc(s))
+    ctx.stats["new_null_detectors"] = n
+
+
 def run(ctx):
     r1_try_coerce(ctx)
     r2_helpers(ctx)
     r3_schema_level(ctx)
     r4_no_write(ctx)
     r5_operator_lint(ctx)
+    r6_new_nulls(ctx)
     ctx.assume("astype/cast of pandas/polars return new objects")
